@@ -377,6 +377,28 @@ def nested_loop(n_limit: int, c0: int, body_len: int = 1, gate: str = "route", d
     return {"spec": spec, "inputs": inputs, "ref": ref, "template": f"nested(depth={depth},L={body_len},{gate})", "fid_prefix": "/".join(["outer"] + [f"wrap{d}" for d in range(depth - 1, 0, -1)] + ["inner"])}
 
 
+def systematic_templates(N: int) -> list:
+    """One instance of every loop template for a given size (the directed part of the loop workloads)."""
+    return [
+        counter_loop(N, 0, 1, "route"),
+        counter_loop(N, 1, 2, "ifelse", True),
+        counter_loop(N, 0, 1, "route", True, exit_name="b0_done"),
+        accumulator_loop(N, 0),
+        signal_loop(N, 0, "counter"),
+        signal_loop(N, 1, "chat"),
+        signal_loop(N, 0, "counter", True, observers=2),
+        nested_loop(N, 0, 1, "route", 1),
+        two_acc_loop(N, 0),
+        lagged_signal_loop(N, N % 3),
+        lagged_signal_loop(N, 0, "ifelse"),
+        const_feed_loop(N, N % 2),
+        interval_loop(2 * N + 1, N % 3),
+        two_exit_loop(N % 2, 100, 2 * N + 1, "conv"),
+        two_exit_loop(0, 2 * N, 100, "budget"),
+        two_signal_loop(3 * N, N % 2, 1),
+    ]
+
+
 def gen_loop(rng):
     """Random template instance."""
     t = rng.choice(["counter", "counter", "counter", "acc", "signal", "signal", "nested", "entry", "twoacc", "lagged"])
